@@ -46,6 +46,7 @@ SHAPES = [
     ("hidden-left-2", "S: A B S a | b; A: EMPTY; B: EMPTY | b;"),
     ("cyclic-null", "S: S S | A; A: EMPTY | a;"),
     ("deep-unit-cycle", "S: A; A: B | a; B: S | b;"),
+    ("g8", "S: x | B S b | A S b; B: A A; A: EMPTY;"),
 ]
 
 
